@@ -13,9 +13,11 @@ modelled: they appear as an arbitrary sequence `body` of parser operations, cons
 discipline `Disciplined` (what Rust's ownership of `Marker` and its `DropBomb` enforce, plus the
 pairing of `start_node`/`finish_node`, which nothing enforces).  That the real grammar produces such
 a sequence, terminates and stops at the end of input is monitored on every generated input by the
-correspondence run (the premises `eventsBalanced`, `fpOk`, `consumesAll`, `noEof`, `tiles`,
-`onBoundaries` are evaluated on the real token and event streams), not proved.  Purity and the
-trivia-insertion clause of the property are tested on the implementation only.
+correspondence run (the premises `eventsBalanced`, `fpOk`, `consumesAll`, `kindsAgree`, `noEof`,
+`tiles`, `onBoundaries` are evaluated on the real token and event streams; operations reconstructed
+from the real stream are checked against `Disciplined` and re-run by the model parser, which must
+reproduce the real events and error ranges), not proved.  Purity and the trivia-insertion clause of
+the property are tested on the implementation only.
 -/
 namespace TrustVerif.C12
 
@@ -128,9 +130,8 @@ theorem c12_errors_in_bounds (L : Lang) (src : List Nat) (toks : List Tok) (root
 
 /-! ## Non-vacuity and sharpness (concrete instances, evaluated by the kernel) -/
 
-/-- A small language: kinds 0 = whitespace (trivia), 1 = ident, 2 = `+`, 10 = IntLiteral, 11 = Dot,
+/-! `exL` (Model): kinds 0 = whitespace (trivia), 1 = ident, 2 = `+`, 10 = IntLiteral, 11 = Dot,
 12 = DotDot, 99 = Eof. -/
-def exL : Lang := ⟨10, 11, 12, 99, fun k => k == 0, fun k => k⟩
 
 /-- `1..2`: logos reports `1.` (IntLiteral), `.`, `2`; the post-pass yields `1`, `..`, `2`, a tiling
 on boundaries (hypotheses and conclusions of `c12_lex_tiles` / `c12_lex_boundaries` /
@@ -140,6 +141,7 @@ example :
     let raw : List Tok := [⟨10, 0, 2⟩, ⟨11, 2, 3⟩, ⟨10, 3, 4⟩]
     tiles raw 0 src.length = true ∧ onBoundaries src raw = true ∧
       postpass exL src raw = [⟨10, 0, 1⟩, ⟨12, 1, 3⟩, ⟨10, 3, 4⟩] ∧
+      lexAll exL src raw = [⟨10, 0, 1⟩, ⟨12, 1, 3⟩, ⟨10, 3, 4⟩] ∧
       tiles (postpass exL src raw) 0 src.length = true := by
   decide
 
